@@ -36,3 +36,5 @@ MANIFEST_ENTRY = {
 
 MANIFEST_ENTRY['text'] += ' update_components is proved to validate all arrays before any value is replaced (a rejected update changes nothing).'
 TRUSTED_BASE.append('update_components contract shared with C05')
+MANIFEST_ENTRY['text'] += (" add_component (stored under the given or a new identifier, announced iff the identifier was not present) and _update_world_components (every previous world attribute "
+                           "removed and announced, one new one per axis in axis order, links rebuilt from the complete list, inside one delay block) are proved from the function text as well.")
